@@ -477,6 +477,16 @@ fn emit(ctx: &mut Ctx, case: &Case, nodes: &[Node]) {
     ctx.op(P, "hist_run", &case.args(), &format!("ok {}", dump_tok(nodes)));
 }
 
+/// a panic inside solve_step (e.g. an assertion of the train physics) is not this property's business:
+/// the case stops there; the message is kept in the distribution
+fn note_panic(ctx: &mut Ctx, case: &Case) {
+    let msg: String = last_panic().split_whitespace().collect::<Vec<_>>().join(" ").split(" LHS").next().unwrap_or("").chars().take(110).collect();
+    ctx.count(&format!("hist.unexpected_panic: {}", msg));
+    let mut j = case.replay();
+    j["panic"] = json!(last_panic());
+    ctx.sample("hist_unexpected_panic", j);
+}
+
 fn iv_tok(v: Option<usize>) -> String {
     opt(&v, |n| n.to_string())
 }
@@ -490,7 +500,7 @@ fn do_walk(ctx: &mut Ctx, case: &mut Case, timed: Option<&(Vec<Link>, Vec<LinkId
     };
     let k = case.sim.top_i() - i0;
     match res {
-        None => { ctx.count("hist.walk.panicked"); ctx.sample("hist_unexpected_panic", case.replay()); None }
+        None => { ctx.count("hist.walk.panicked"); note_panic(ctx, case); None }
         Some(r) => {
             let failed = r.is_err();
             case.ops.push(format!("{} {} {}", if timed.is_some() { "walkt" } else { "walk" }, k, b(failed)));
@@ -600,7 +610,7 @@ fn case_script(ctx: &mut Ctx, r: &mut Rng, kind: &'static str, vs: Vec<&'static 
             let res = case.sim.step();
             case.sim.repair(old);
             match res {
-                None => { ctx.count("hist.script.step_panicked"); ctx.sample("hist_unexpected_panic", case.replay()); return; }
+                None => { ctx.count("hist.script.step_panicked"); note_panic(ctx, &case); return; }
                 Some(Ok(())) => { case.ops.push("step".into()); ctx.count("hist.script.injected_failure_absorbed"); }
                 Some(Err(_)) => { case.ops.push("fail".into()); ctx.count("hist.script.failing_step"); }
             }
@@ -618,7 +628,7 @@ fn case_script(ctx: &mut Ctx, r: &mut Rng, kind: &'static str, vs: Vec<&'static 
             let m = r.usize(1, 4).min(left - 1);
             for _ in 0..m {
                 match case.sim.step() {
-                    None => { ctx.count("hist.script.step_panicked"); ctx.sample("hist_unexpected_panic", case.replay()); return; }
+                    None => { ctx.count("hist.script.step_panicked"); note_panic(ctx, &case); return; }
                     Some(Ok(())) => { case.ops.push("step".into()); ctx.count("hist.script.step_ok"); }
                     Some(Err(_)) => { case.ops.push("fail".into()); ctx.count("hist.script.step_natural_error"); }
                 }
